@@ -71,6 +71,7 @@ PLAN = {
     "C07": {
         "level": "proof",
         "contracts": ["contracts.evaluation", "contracts.constraints"],
+        "bounded": ["bounded.c07"],
         "lemmas": True,
     },
     "C11": {
